@@ -16,10 +16,10 @@ from pyvc import sorts as S
 def declare(reg):
     S.declare_record('AbsStr', [('n', 'int'), ('last', 'int')])
     S.declare_record('PosLine', [('startpos', 'int'), ('lineno', 'int'), ('length', 'int')])
-    S.declare_record('TLConfig', [('comments', 'int'), ('eol_comments', 'int')])
+    S.declare_record('TLConfig', [('comments', 'Val'), ('eol_comments', 'Val')])
     S.declare_record('TLInput', [
         ('ignorecase', 'bool'), ('nameguard', 'bool'), ('_namechar_set', 'strset'),
-        ('whitespace_re', 'int'), ('config', 'TLConfig'),
+        ('whitespace_re', 'Val'), ('config', 'TLConfig'),
     ])
     S.declare_record('Cursor', [('pos', 'int'), ('len', 'int'), ('textstr', 'str'), ('input', 'TLInput'), ('_namechars', 'strset')], mutable=True)
     S.declare_record('ASTD', [('dkeys', 'strset'), ('dvals', 'strmap')], mutable=True)
@@ -40,7 +40,7 @@ def declare(reg):
     S.declare_union('Outcome', [('o_none', []), ('o_ok', [('res', 'RuleResultR')]), ('o_err', [('cls', 'int'), ('eid', 'int')])])
     S.declare_record('ConfigR', [
         ('left_recursion', 'bool'), ('memoization', 'bool'), ('prune_memos_on_cut', 'bool'), ('parseinfo', 'bool'),
-        ('ignorecase', 'bool'), ('trace', 'bool'),
+        ('ignorecase', 'bool'), ('trace', 'bool'), ('keywords', 'strset'), ('semantics', 'int'),
     ])
     reg.classes['DictD'] = {'mro': [], 'fields': {'dkeys': 'strset', 'dvals': 'strmap'}, 'isa': ['dict']}
     for attr, srt in {'attr': 'str', 'id': 'str', 'ctx': 'opaque:AstNode', 'func': 'opaque:AstNode', 'args': 'seq[opaque:AstNode]'}.items():
@@ -56,7 +56,7 @@ def declare(reg):
                 'tatsu/contexts/core.py:ParserCore'],
         'fields': {'states': 'States', 'tracer': 'opaque:Tracer', '_active_config': 'ConfigR',
                    'keywords': 'strset', 'semantics': 'opaque:Semantics', '_memos': 'MemoD', '_results': 'MemoD',
-                   'textlen': 'int'},
+                   'textlen': 'int', '_config': 'ConfigR'},
         'wf': ['len(self.states.state_stack) >= 1', 'spec_frame_wf(self.states.state_stack[-1])',
                'self.states.state_stack[-1].cursor.len == self.textlen'],
         'isa': ['Ctx', 'ParseContext', 'ParserEngine', 'ParserCore'],
@@ -75,7 +75,9 @@ def declare(reg):
         reg.opaque_attrs[('Tracer', m)] = ('method', 'NOOP')
     reg.exc_attrs.update({'pos': 'int'})
 
-    reg.record_field_kind = {('RuleInfoR', 'func'): 'func:PARSE', ('RuleInfoR', 'instance'): 'opaque:Model'}
+    reg.record_field_kind = {('RuleInfoR', 'func'): 'func:PARSE', ('RuleInfoR', 'instance'): 'opaque:Model',
+                             ('ConfigR', 'semantics'): 'opaque:Semantics'}
+    reg.opaque_attrs[('Semantics', 'set_context')] = ('method', 'NOOP')
     reg.import_consts = {'_AT_': 'tatsu/contexts/state.py'}
     reg.class_alias = {
         'ParseState': 'Frame', 'AST': 'ASTD', 'Alert': 'AlertR', 'RuleInfo': 'RuleInfoR',
